@@ -12,6 +12,7 @@
 //     L <text>               PromelaDataModel::evaluateDecl(text)   (protected member; "int a, b = 3; int arr[4]")
 //     E <expr>               DataModel::evalAsData(expr)            -> "@V <i|v> <atom>" | "@J <json>"
 //     B <expr>               DataModel::evalAsBool(expr)            -> "@B 0|1"
+//     +E / +B                the same, but answered "@SKIP" when the preceding command crashed, hung or was skipped
 //   Answers: "@OK", "@V ..", "@J ..", "@B ..", "@ERR <event name> :: <data.cause>" for a thrown uscxml::Event,
 //   "@EXC <what>" for any other exception, "@CRASH <exit=n|signal=n>" when the executing process died (its sanitizer report
 //   is on stderr, followed by a line "@@CRASH-AT <command index>"), "@HANG cpu_ms=<n> maxrss_kb=<n>" when the CPU watchdog
@@ -166,7 +167,10 @@ static void mark(const char* what, size_t idx) {
 	(void)!write(2, buf, n);
 }
 
-static bool isPure(const std::string& l) { return l.size() >= 2 && (l[0] == 'E' || l[0] == 'B') && l[1] == '\t'; }
+// "+E .." / "+B ..": skipped (answer "@SKIP") when the previous command crashed, hung or was skipped itself
+static bool isChained(const std::string& l) { return l.size() >= 1 && l[0] == '+'; }
+static std::string unchain(const std::string& l) { return isChained(l) ? l.substr(1) : l; }
+static bool isPure(const std::string& l0) { std::string l = unchain(l0); return l.size() >= 2 && (l[0] == 'E' || l[0] == 'B') && l[1] == '\t'; }
 
 int main(int argc, char** argv) {
 	signal(SIGPROF, onProf);
@@ -230,7 +234,7 @@ int main(int argc, char** argv) {
 		}
 		if (nofork) {
 			if (watchdog_ms > 0) arm(watchdog_ms);
-			std::string a = execute(f);
+			std::string a = execute(split(unchain(lines[i])));
 			arm(0);
 			say(a);
 			i++;
@@ -247,7 +251,7 @@ int main(int argc, char** argv) {
 				if (pid == 0) {
 					for (size_t k = i; k < j; k++) {
 						if (watchdog_ms > 0) arm(watchdog_ms);
-						std::string a = execute(split(lines[k]));
+						std::string a = execute(split(unchain(lines[k])));
 						arm(0);
 						say(a);
 						(*done_counter)++;
@@ -271,6 +275,7 @@ int main(int argc, char** argv) {
 					say(buf);
 				}
 				i++;
+				while (i < j && isChained(lines[i])) { say("@SKIP"); i++; }
 			}
 			continue;
 		}
